@@ -824,7 +824,14 @@ class QvmCpu:
                       expected=a.type,
                       got=b.type)
 
-        result = a.value ** b.value
+        try:
+            result = a.value ** b.value
+        except OverflowError:
+            self.trap(TrapCode.INVALID_CELL_VALUE,
+                      type=a.type, value='overflow')
+        if isinstance(result, complex):
+            self.trap(TrapCode.INVALID_OPERAND_VALUE,
+                      desc='negative base with fractional exponent')
         self.push(a.type, result)
 
     def _exec_frame(self, params_size, local_vars_size):
